@@ -60,6 +60,11 @@ def demote_rewritten(r):
                 owners = [o_ for o_ in baseline_owners(r, q) if o_ != q]
                 sims = [x for x in (similarity_to_baseline(r.P, o_, base) for o_ in owners) if x is not None]
                 sim_ = min(sims) if sims else None
+                # ... and when validated functions of the same module have disappeared, the new function is where their code went
+                mod = r.P.functions[q].module
+                gone = [b for b in base if b.rsplit(".", 1)[0] in (mod, r.P.functions[q].cls or mod) and b not in r.P.functions and (b.startswith(mod + "."))]
+                if gone:
+                    sim_ = 0.0
             cache[q] = sim_
         sim = cache[q]
         wrapper = _new_wrapper(r, q, BASELINE_VOCAB.get("__functions__") or ())
